@@ -932,3 +932,116 @@ Proof.
   cbn [snd] in *. split; [|exact Hn].
   unfold enc_logs. rewrite map_map. rewrite <- Hi. apply map_ext. intros [[i l] v]. reflexivity.
 Qed.
+
+(* ======================================================================== *)
+(* 6. nothing is handed to the fabric twice                                     *)
+(* ======================================================================== *)
+Section Once.
+Variable P : Type.
+Notation entry := (entry P).
+Notation sched := (sched P).
+
+Lemma split_due_app now (l : list entry) : fst (split_due now l) ++ snd (split_due now l) = l.
+Proof.
+  induction l as [|x l IH]; cbn; [reflexivity|].
+  destruct (now <? e_at x); [reflexivity|]. destruct (split_due now l) as [a b]. cbn in *. now rewrite IH.
+Qed.
+
+Lemma insert_perm (e : entry) l : Permutation (insert e l) (e :: l).
+Proof.
+  induction l as [|x l IH]; cbn; [apply Permutation_refl|].
+  destruct (key_leb e x); [apply Permutation_refl|].
+  eapply perm_trans; [apply perm_skip, IH|apply perm_swap].
+Qed.
+
+(* D: everything handed out so far; the invariant: D and the pending packets
+   are pairwise different and all come from `seen` *)
+Definition OnceInv (D : list P) (s : sched) (seen : list P) : Prop :=
+  NoDup (D ++ map e_pkt (s_pending s)) /\ incl (D ++ map e_pkt (s_pending s)) seen.
+
+Lemma route_once D (s : sched) seen p v :
+  OnceInv D s seen -> ~ In p seen ->
+  OnceInv (D ++ snd (route s p v)) (fst (route s p v)) (seen ++ [p]).
+Proof.
+  intros [Hn Hi] Hp.
+  assert (Hfresh : ~ In p (D ++ map e_pkt (s_pending s))) by (intros H; apply Hp, Hi, H).
+  assert (Hi' : incl (D ++ map e_pkt (s_pending s)) (seen ++ [p])) by (intros x Hx; apply in_or_app; left; auto).
+  assert (Keep : OnceInv D s (seen ++ [p])) by (split; assumption).
+  assert (Now : OnceInv (D ++ [p]) s (seen ++ [p])).
+  { split.
+    - rewrite <- app_assoc. cbn. apply NoDup_app_iff in Hn as (N1 & N2 & N3).
+      apply NoDup_app_iff. split; [exact N1|]. split.
+      + constructor; [|exact N2]. intros H. apply Hfresh, in_or_app. now right.
+      + intros x Hx [<-|Hx2]; [apply Hfresh, in_or_app; now left|apply (N3 x Hx Hx2)].
+    - intros x Hx. rewrite <- app_assoc in Hx. apply in_app_or in Hx as [Hx|[<-|Hx]].
+      + apply Hi'. apply in_or_app. now left.
+      + apply in_or_app. right. now left.
+      + apply Hi'. apply in_or_app. now right. }
+  destruct v as [|d|]; cbn [route fst snd].
+  - exact Now.
+  - destruct (d =? 0); cbn [fst snd]; [exact Now|]. rewrite app_nil_r. cbn [schedule s_pending].
+    set (e := mkentry (s_now s + d) (s_next s) p).
+    assert (Pm : Permutation (D ++ map e_pkt (insert e (s_pending s))) (p :: D ++ map e_pkt (s_pending s))).
+    { eapply perm_trans; [apply Permutation_app_head, Permutation_map, insert_perm|]. cbn.
+      apply Permutation_sym, Permutation_middle. }
+    split.
+    + eapply Permutation_NoDup; [apply Permutation_sym, Pm|]. constructor; assumption.
+    + intros x Hx. apply (Permutation_in _ Pm) in Hx as [<-|Hx]; [apply in_or_app; right; now left|now apply Hi'].
+  - rewrite app_nil_r. exact Keep.
+Qed.
+
+Lemma route_all_once pvs : forall D (s : sched) seen,
+  OnceInv D s seen -> NoDup (seen ++ map fst pvs) ->
+  OnceInv (D ++ snd (route_all s pvs)) (fst (route_all s pvs)) (seen ++ map fst pvs).
+Proof.
+  induction pvs as [|[p v] pvs IH]; intros D s seen HI Hn; cbn [route_all map].
+  - cbn. now rewrite !app_nil_r.
+  - assert (Hp : ~ In p seen).
+    { apply NoDup_app_iff in Hn as (_ & _ & N3). intros H. apply (N3 p H). now left. }
+    pose proof (route_once D s seen p v HI Hp) as H1.
+    destruct (route s p v) as [s1 o1]. cbn [fst snd] in *.
+    assert (Hn' : NoDup ((seen ++ [p]) ++ map fst pvs)) by (rewrite <- app_assoc; exact Hn).
+    pose proof (IH _ _ _ H1 Hn') as H2.
+    destruct (route_all s1 pvs) as [s2 o2]. cbn [fst snd] in *.
+    rewrite <- !app_assoc in H2. cbn [app] in H2. exact H2.
+Qed.
+
+Lemma tick_once D (s : sched) seen dt pvs :
+  OnceInv D s seen -> NoDup (seen ++ map fst pvs) ->
+  OnceInv (D ++ o_all (snd (tick s dt pvs))) (fst (tick s dt pvs)) (seen ++ map fst pvs).
+Proof.
+  intros [Hn Hi] Hu. unfold tick.
+  pose proof (split_due_app (s_now s + dt) (s_pending s)) as Hs.
+  destruct (split_due (s_now s + dt) (s_pending s)) as [rdy rest]. cbn [fst snd] in Hs.
+  assert (H1 : OnceInv (D ++ map e_pkt rdy) (mksched (s_now s + dt) rest (s_next s)) seen).
+  { unfold OnceInv. cbn [s_pending]. rewrite <- app_assoc, <- map_app, Hs. split; assumption. }
+  pose proof (route_all_once pvs _ _ _ H1 Hu) as H2.
+  destruct (route_all (mksched (s_now s + dt) rest (s_next s)) pvs) as [s' imm]. cbn [fst snd] in *.
+  unfold o_all. cbn [o_due o_imm]. now rewrite app_assoc.
+Qed.
+
+Fixpoint all_pkts (ticks : list (N * list (P * verdict))) : list P :=
+  match ticks with [] => [] | (_, pvs) :: r => map fst pvs ++ all_pkts r end.
+
+Lemma srun_once ticks : forall D (s : sched) seen,
+  OnceInv D s seen -> NoDup (seen ++ all_pkts ticks) ->
+  NoDup (D ++ flat_map (@o_all P) (snd (srun s ticks))).
+Proof.
+  induction ticks as [|[dt pvs] ticks IH]; intros D s seen HI Hu; cbn [srun all_pkts].
+  - cbn. rewrite app_nil_r. destruct HI as [Hn _]. apply NoDup_app_iff in Hn. tauto.
+  - cbn [all_pkts] in Hu. rewrite app_assoc in Hu.
+    assert (Hu1 : NoDup (seen ++ map fst pvs)) by (apply NoDup_app_iff in Hu; tauto).
+    pose proof (tick_once D s seen dt pvs HI Hu1) as H1.
+    destruct (tick s dt pvs) as [s1 o]. cbn [fst snd] in *.
+    pose proof (IH _ _ _ H1 Hu) as H2.
+    destruct (srun s1 ticks) as [s2 os]. cbn [fst snd flat_map] in *.
+    now rewrite app_assoc.
+Qed.
+
+Lemma delivered_once_lemma ticks :
+  NoDup (all_pkts ticks) -> NoDup (flat_map (@o_all P) (snd (srun sched0 ticks))).
+Proof.
+  intros H. apply (srun_once ticks [] sched0 []); [|exact H].
+  split; [constructor|intros x []].
+Qed.
+End Once.
